@@ -574,6 +574,7 @@ func (fr *Frame) builtin(b *ssa.Builtin, c *ssa.CallCommon, rt types.Type, st *S
 		return fr.copyOp(c, args, rt, st)
 	case "delete":
 		mt := c.Args[0].Type().Underlying().(*types.Map)
+		fr.ghostAnchorsPre("delete", st, reach, in)
 		g.mapDelete(st, mt, args[0].T, args[1].T)
 		fr.ghostAnchors("delete", st, reach, in, Val{})
 		return Val{}
@@ -1038,14 +1039,32 @@ func (fr *Frame) ghostAnchorsAfter(x *ssa.Call, st *State, reach string, res Val
 	fr.runAnchors([]string{fmt.Sprintf("call %s#%d", name, ord), "call " + name}, "after", st, reach, x, res)
 }
 
-func (fr *Frame) ghostAnchors(kind string, st *State, reach string, in ssa.Instruction, res Val) {
+// ghostAnchorsPre / ghostAnchors: `before` clauses of a non-call anchor are evaluated in the state BEFORE the instruction
+// (ghostAnchorsPre, called first), `after` clauses after it.
+func (fr *Frame) ghostAnchorsPre(kind string, st *State, reach string, in ssa.Instruction) {
 	if fr.fc == nil || fr.depth > 0 {
 		return
 	}
 	fr.anchorOrd[kind]++
 	keys := []string{fmt.Sprintf("%s#%d", kind, fr.anchorOrd[kind]), kind}
+	fr.runAnchors(keys, "before", st, reach, in, Val{})
+	fr.anchorPre[kind] = true
+}
+
+func (fr *Frame) ghostAnchors(kind string, st *State, reach string, in ssa.Instruction, res Val) {
+	if fr.fc == nil || fr.depth > 0 {
+		return
+	}
+	pre := fr.anchorPre[kind]
+	fr.anchorPre[kind] = false
+	if !pre {
+		fr.anchorOrd[kind]++
+	}
+	keys := []string{fmt.Sprintf("%s#%d", kind, fr.anchorOrd[kind]), kind}
 	fr.runAnchors(keys, "after", st, reach, in, res)
-	fr.runAnchors(keys, "before", st, reach, in, res)
+	if !pre {
+		fr.runAnchors(keys, "before", st, reach, in, res)
+	}
 }
 
 func anchorMatches(anchor string, keys []string) bool {
